@@ -319,6 +319,44 @@ theorem find_replace_self (s : State) (n : String) (ex q : ProxyRec) (hq : q.nam
       simp only [hf, Bool.false_eq_true, if_false]
       exact ih h
 
+def off (p : ProxyRec) : ProxyRec := { p with enabled := false }
+
+/-- What `stopFirst` found, and conversely. -/
+theorem stopFirst_spec (e : Env) (s : State) (r : Request) (x : PopEntry) (s1 : State) :
+    stopFirst e s r = some (x, s1) ↔
+      ∃ ex rs, decodePopulate r.body = some [x] ∧ (x.name == "" || x.upstream == "") = false ∧
+        s.find x.name = some ex ∧ e.resolve x.listen = some rs ∧
+        (e.sameListen ex.listen x.listen && ex.upstream == x.upstream) = false ∧ ex.enabled = true ∧
+        s1 = s.replace (off ex) := by
+  constructor
+  · intro hsf
+    unfold stopFirst at hsf
+    split at hsf
+    · rename_i y hdec
+      split at hsf
+      · cases hsf
+      · rename_i hne
+        split at hsf
+        · rename_i ex hfind
+          split at hsf
+          · cases hsf
+          · rename_i rs hres
+            split at hsf
+            · cases hsf
+            · rename_i hdiff
+              split at hsf
+              · rename_i hen
+                simp only [Option.some.injEq, Prod.mk.injEq] at hsf
+                obtain ⟨hx, hs⟩ := hsf
+                subst hx
+                exact ⟨ex, rs, hdec, by simpa using hne, hfind, hres, by simpa using hdiff, hen, hs.symm⟩
+              · cases hsf
+        · cases hsf
+    · cases hsf
+  · rintro ⟨ex, rs, hdec, hne, hfind, hres, hdiff, hen, hs1⟩
+    unfold stopFirst
+    simp only [hdec, hne, Bool.false_eq_true, if_false, hfind, hres, hdiff, hen, if_true, hs1, off]
+
 theorem alone_replace (v : UpdVariant) (e : Env) (c : CState) (r : Request)
     (hz : c.zombies = []) (hl : c.locked = []) (hk : kindOf r = .replace) :
     (runAlone v e c r).1.s = (step v e c.s r).1 ∧ (runAlone v e c r).2.resp? = some (step v e c.s r).2 ∧
@@ -411,6 +449,50 @@ theorem alone_replace (v : UpdVariant) (e : Env) (c : CState) (r : Request)
           simp [advance, hz, hstart, hfo, off, np, env_eta, hsp, CState.epoch]
         rw [hpop]
         simp [runAlone, h0, h1, Phase.resp?, hstart, hsp]
+
+/-- The second block of a replacing populate, run on the registry its first block left (`c.s`,
+where the sequential handler would have seen `sA`): registry and answer are the sequential
+handler's on `sA`. -/
+theorem replacing_block (v : UpdVariant) (e : Env) (sA : State) (r : Request) (x : PopEntry) (c : CState)
+    (hk : kindOf r = .replace) (hsf : stopFirst e sA r = some (x, c.s)) (hz : c.zombies = []) (hl : c.locked = [collLock]) :
+    (advance v e c r (.replacing x)).1.s = (step v e sA r).1 ∧
+    (advance v e c r (.replacing x)).2 = .done (step v e sA r).2 ∧
+    (advance v e c r (.replacing x)).1.zombies = [] ∧ (advance v e c r (.replacing x)).1.locked = [] := by
+  obtain ⟨ex, rs, hdec, hne, hfind, hres, hdiff, hen, hs1⟩ := (stopFirst_spec e sA r x c.s).mp hsf
+  have hoffn : (off ex).name = x.name := (find_name hfind : ex.name = x.name)
+  have hfo : c.s.find x.name = some (off ex) := by rw [hs1]; exact find_replace_self sA x.name ex (off ex) hoffn hfind
+  let np : ProxyRec := ⟨x.name, x.listen, x.upstream, false, []⟩
+  have hpop : step v e sA r =
+      (if x.enabled.getD true then
+        (match startProxy e c.s np with
+         | some p => (c.s.replace p, ⟨201, .populate [p] none, false, false⟩)
+         | none => (c.s, ⟨500, .populate [] (some .internal), true, false⟩))
+       else (c.s.replace np, ⟨201, .populate [np] none, false, false⟩)) := by
+    rw [step_replace v e sA r hk]
+    unfold populate
+    simp only [hdec, List.any_cons, List.any_nil, Bool.or_false, hne, Bool.false_eq_true, if_false]
+    simp only [populateLoop, addOrReplace, hfind, hres, hdiff, Bool.false_eq_true, if_false]
+    have hs1' : sA.replace { ex with enabled := false } = c.s := hs1.symm
+    simp only [hs1']
+    cases hstart : x.enabled.getD true
+    · simp [populateLoop, np]
+    · simp only [if_true]
+      cases hsp : startProxy e c.s np with
+      | none => simp [hsp, np, hfo, off]
+      | some p => simp [hsp, np, populateLoop]
+  have hlk : (c.locked.erase collLock) = [] := by rw [hl]; simp
+  cases hstart : x.enabled.getD true with
+  | false =>
+    rw [hpop]
+    simp [advance, hz, hlk, hstart, hfo, off, np]
+  | true =>
+    cases hsp : startProxy e c.s np with
+    | none =>
+      rw [hpop]
+      simp [advance, hz, hlk, hstart, hfo, off, np, env_eta, hsp]
+    | some p =>
+      rw [hpop]
+      simp [advance, hz, hlk, hstart, hfo, off, np, env_eta, hsp]
 
 /-- **C16 (the block model refines the sequential model).** A request whose blocks run
 without anything in between — from a state with no zombie listener and no half-way update —
